@@ -126,7 +126,9 @@ func VerifC16_Shutdown(nconn, nreq, failMask, slow, late, trig int) {
 	case 1:
 		verifBlock(func() bool { return w.connects+w.connectFails >= n })
 	case 2:
-		verifBlock(func() bool { return w.running > 0 || w.finished >= nreq*n || w.connects+w.connectFails >= n && nreq == 0 })
+		verifBlock(func() bool {
+			return w.running > 0 || w.connects+w.connectFails >= n && w.finished >= nreq*w.connects
+		})
 	default:
 		verifBlock(func() bool {
 			answered := 0
